@@ -301,8 +301,6 @@ class Vi:
         if c == "'":
             self.read()
             m = self.read()
-            if m not in self.marks:
-                return -1, r
             raise Unknown('mark motion')
         if c == 'j':
             self.read()
@@ -465,15 +463,18 @@ class Vi:
         return self.regs.get(key)
 
     # ------------------------------------------------------------------ regions
+    def lz(self, r):
+        return self.ln(r) or ''
+
     def region_text(self, r1, o1, r2, o2):
         if r1 == r2:
-            s = self.ln(r1)
+            s = self.lz(r1)
             e = len(s) if o2 < 0 else o2
             return s[o1:e] if o1 <= e else ''
-        s1 = self.ln(r1)[o1:]
-        s3 = self.ln(r2)
+        s1 = self.lz(r1)[o1:]
+        s3 = self.lz(r2)
         s3 = s3 if o2 < 0 else s3[:o2]
-        mid = ''.join(self.ln(i) for i in range(r1 + 1, r2))
+        mid = ''.join(self.lz(i) for i in range(r1 + 1, r2))
         return s1 + mid + s3
 
     def edit(self, text, beg, end):
@@ -585,6 +586,8 @@ class Vi:
 
     # ------------------------------------------------------------------ operators
     def vc_motion(self, cmd, a1, ybuf):
+        if not self.n():
+            raise Unknown('operator on an empty buffer')
         r1 = r2 = self.row
         a2 = self.prefix()
         o1 = self.noeol(r1, self.off)
@@ -620,7 +623,7 @@ class Vi:
             if ln:
                 self.edit(None, r1, r2 + 1)
             else:
-                line = self.ln(r1)[:o1] + self.ln(r2)[o2:]
+                line = self.lz(r1)[:o1] + self.lz(r2)[o2:]
                 self.edit(line, r1, r2 + 1)
             self.row = r1
             self.off = self.indents(r1) if ln else o1
@@ -665,7 +668,7 @@ class Vi:
             if ln:
                 self.edit(txt, r1, r2 + 1)
             else:
-                self.edit(self.ln(r1)[:o1] + txt + self.ln(r2)[o2:], r1, r2 + 1)
+                self.edit(self.lz(r1)[:o1] + txt + self.lz(r2)[o2:], r1, r2 + 1)
             self.row = r2
             self.off = self.indents(r2) if ln else o2
             return True
@@ -686,7 +689,7 @@ class Vi:
             return True
         if cmd == '!':
             if mv in '{}':
-                if self.ln(r2) == '\n' and r1 < r2:
+                if self.lz(r2) == '\n' and r1 < r2:
                     r2 -= 1
             c = ''
             while True:
@@ -700,7 +703,7 @@ class Vi:
                 c += k
             if c not in self.shell:
                 raise Unknown('shell command %r' % c)
-            new = self.shell[c]([self.L[i] for i in range(r1, r2 + 1)])
+            new = self.shell[c]([self.L[i] for i in range(r1, min(r2 + 1, self.n()))])
             self.edit(''.join(x + '\n' for x in new), r1, r2 + 1)
             return True
         raise Unknown(cmd)
@@ -757,8 +760,10 @@ class Vi:
             elif c == 'm':
                 m = self.read()
                 raise Unknown('marks')
-            else:
+            elif c in 'u.@:/?nNqzZ&vVKRUQ=\\#*_' or ord(c) < 32 or c == '\x7f':
                 raise Unknown('command %r' % c)
+            else:
+                pass        # not a command: neatvi ignores the key
         self.wfix()
         if mod:
             self.xcol = self.off2col(self.row, self.off) if self.n() else 0
